@@ -78,7 +78,7 @@ PROPS = {
     "C04": {
         "units": [],
         "bounded_only": True,
-        "bounded_checks": ["completion"],
+        "bounded_checks": ["completion", "applic"],
         "level": "exploration",
         "min_obligations": 0,
         "explanation": "No contract reaches completion.rs (outside Verus' subset; Kani does not complete on formula trees). Bounded stand-in only, on the compiled real code: "
